@@ -163,6 +163,11 @@ def modifier_cases():
     }
     for nm, mod in tmods.items():
         out.append(Case(f"MOD-{nm}", {"network": dict(prim, ode_modifier=mod)}, ref="meta", pseudo=["Photon"], tags={"modifier", "thermal", "selfcheck"}))
+    # rate modifiers keyed by database indices far above the number of reactions (the subscripts of k[] must stay
+    # positions in the network), on files with 1-based and with large indices
+    td = os.path.join(REPO, "tests", "data")
+    out.append(Case("RMOD-umist-file-index", {"network": {"filelist": f"{td}/minimal.umist", "fileformats": "umist", "rate_modifier": {"5367": "1.0e-9*Av"}}}, ref="meta", tags={"modifier", "ratemod"}))
+    out.append(Case("RMOD-kida-last-index", {"network": {"filelist": f"{td}/minimal.kida", "fileformats": "kida", "rate_modifier": {"6599": "2.0e-10", "4894": "zeta"}}}, ref="meta", tags={"modifier", "ratemod"}))
     return out
 
 
